@@ -53,7 +53,49 @@ pub fn filename_navigate(
 {
 	if is_std_path(relative)
 	{
-		return Ok(relative.to_string());
+		// Normalize the part after the prefix, and never
+		// let `..` climb out of the standard library
+		let nav = relative
+			.get(STD_PATH_PREFIX.len()..)
+			.unwrap()
+			.replace("\\", "/");
+
+		let mut std_components: Vec<&str> = Vec::new();
+		for split in nav.split("/")
+		{
+			if split.len() == 0 || split == "."
+			{
+				continue;
+			}
+
+			if split == ".."
+			{
+				if std_components.len() == 0
+				{
+					report.error_span("cannot navigate out of the standard library", span);
+					return Err(());
+				}
+
+				std_components.remove(std_components.len() - 1);
+				continue;
+			}
+
+			std_components.push(split);
+		}
+
+		if std_components.len() == 0
+		{
+			report.error_span(
+				"invalid filename",
+				span);
+			
+			return Err(());
+		}
+
+		return Ok(format!(
+			"{}{}",
+			STD_PATH_PREFIX,
+			std_components.join("/")));
 	}
 
 	let current = current.replace("\\", "/");
